@@ -122,6 +122,7 @@ func TestC07Drain(t *testing.T) {
 		c.ClassIf(h.ReleaseInSync > 0, "release_writer_inside_data_sync")
 		c.ClassIf(h.FaultsInjected > 0, "faults_injected")
 		c.ClassIf(h.RotationInStateWrite > 0, "rotation_during_state_write")
+		c.ClassIf(h.RotationInReleaseWrite > 0, "rotation_attempted_during_release_state_write")
 		c.ClassIf(w.St.BL.PopFronts > 0, "rotated")
 		c.ClassIf(w.Flags["r_started_inside_s_statewrite"] > 0, "r_started_inside_s_statewrite")
 		if h.FinalizeInSync > 0 || h.FinalizeInWrite > 0 || h.ReleaseInSync > 0 || h.FaultsInjected > 0 {
